@@ -62,7 +62,7 @@ func main() {
 	pipe.Default()
 	pipe.Skip["dyn3"] = true
 	pipe.Skip["dc"] = true // builds an xpath from record data: fails on records the algebra treats as good
-	total := o.Count(1200, 80000)
+	total := o.Count(1200, 24000)
 
 	for c := 0; c < total; c++ {
 		f := fmts[r.Pick(len(fmts))]
@@ -269,7 +269,7 @@ func main() {
 // the result of that record transformed ALONE.
 func longCases(o *vh.Opts, r *vh.Rng, sum *vh.Summary, cw *vh.CaseWriter) {
 	mls := pipe.MultiLineFormats()
-	n := o.Count(10, 300)
+	n := o.Count(10, 60)
 	if o.N > 0 {
 		n = 2
 	}
